@@ -144,7 +144,8 @@ def mutate(ch, doc):
     """-> (doc, kind)"""
     k = ch.draw(8, "mut.kind")
     if k == 0 or not isinstance(doc, dict):
-        return ch.pick([[], "sign", 5, None, True, [doc], 1.5, "{}"], "mut.nonobject"), "non-object"
+        return copy.deepcopy(ch.pick([[], "sign", 5, None, True, [doc], 1.5, "{}"],
+                                     "mut.nonobject")), "non-object"
     ps = paths_of(doc)
     if not ps:
         return doc, "none"
@@ -158,7 +159,7 @@ def mutate(ch, doc):
             parent.pop(key)
         return doc, "delete"
     if k == 2:
-        parent[key] = WEIRD[ch.draw(len(WEIRD), "mut.weird")]
+        parent[key] = copy.deepcopy(WEIRD[ch.draw(len(WEIRD), "mut.weird")])
         return doc, "retype"
     if k in (3, 4, 5):
         sp = [p_ for p_ in ps if isinstance(p_[-1], str) and p_[-1] in SPECIAL]
@@ -171,12 +172,12 @@ def mutate(ch, doc):
         if opts:
             parent[key] = copy.deepcopy(opts[ch.draw(len(opts), "mut.special")])
             return doc, "boundary:" + str(name)
-        parent[key] = WEIRD[ch.draw(len(WEIRD), "mut.weird")]
+        parent[key] = copy.deepcopy(WEIRD[ch.draw(len(WEIRD), "mut.weird")])
         return doc, "retype"
     if k == 6:
         tgt = parent if isinstance(parent, dict) else doc
         tgt[ch.pick(["extra", "hash", "tx", "auth", "input"], "mut.extrakey")] = \
-            WEIRD[ch.draw(len(WEIRD), "mut.weird")]
+            copy.deepcopy(WEIRD[ch.draw(len(WEIRD), "mut.weird")])
         return doc, "extra-member"
     # swap the command keeping the fields
     doc["command"] = ch.pick(["sign", "getPubKey", "version", "blockchainState", "uiHeartbeat",
